@@ -8,9 +8,9 @@ multi-character operators can be recognised with `seq_at`.
 import re
 
 class Tok:
-    __slots__ = ("text", "ws", "kind", "line", "ann")
+    __slots__ = ("text", "ws", "kind", "line", "ann", "loopkw")
     def __init__(self, text, ws, kind, line):
-        self.text = text; self.ws = ws; self.kind = kind; self.line = line; self.ann = None
+        self.text = text; self.ws = ws; self.kind = kind; self.line = line; self.ann = None; self.loopkw = None
     @property
     def glued(self):
         return self.ws == ""
